@@ -386,7 +386,8 @@ fn decide(st: &mut SimState, tid: u32, call: Call, path: &str, req: usize) -> (D
             which = i as i32;
             decision = match r.action {
                 Action::Errno(e) => Decision::Fail(e),
-                Action::Limit(n) => Decision::Limit(n.max(1)),
+                // (a transfer of at least one byte; a reported size may well be 0)
+                Action::Limit(n) => Decision::Limit(if call == Call::Fstat { n } else { n.max(1) }),
                 Action::ShortBy(n) => Decision::Limit(req.saturating_sub(n).max(1)),
                 Action::Zero => Decision::Zero,
             };
